@@ -70,6 +70,11 @@ class Loader:
         if info:
             interp.ctype_aliases = dict(getattr(interp, "ctype_aliases", {}))
             interp.ctype_aliases.update(mod.ctype_aliases)
+            from .heap import CTypeObj
+            from .core import norm_ctype, is_int_ctype, is_float_ctype
+            for al, ty in mod.ctype_aliases.items():
+                if is_int_ctype(norm_ctype(ty)) or is_float_ctype(norm_ctype(ty)):
+                    mod.ns.setdefault(al, CTypeObj.get(norm_ctype(ty)))
             mod.ns["cython"] = self.import_module(interp, "cython")
             mod.ns.setdefault("np", self.import_module(interp, "numpy"))
         skipped = []
@@ -238,6 +243,17 @@ def make_lib(I, name):
             return t
         return Module("time", {"time": N("time.time", _time),
                                "sleep": N("time.sleep", lambda I_, a, k: None)})
+    if name == "dataclasses":
+        def _dataclass(I_, a, k):
+            if a and isinstance(a[0], Class):
+                return a[0]
+            return N("dataclass.deco", lambda I2, a2, k2: a2[0])
+        return Module("dataclasses", {"dataclass": N("dataclass", _dataclass),
+                                      "field": N("field", lambda I_, a, k: k.get("default"))})
+    if name == "re":
+        return Module("re", {"compile": N("re.compile", lambda I_, a, k: Opaque("regex")),
+                             "search": Opaque("re.search"), "match": Opaque("re.match"),
+                             "sub": Opaque("re.sub")})
     if name == "warnings":
         return Module("warnings", {"warn": N("warnings.warn", lambda I_, a, k: None)})
     if name == "typing":
